@@ -79,6 +79,8 @@ func (s *KeyStore) writeKeyRing(ring *KeyRing) (err error) {
 
 	err = s.pushNewRingState(ring)
 	if err != nil {
+		// Nothing has been stored: the key ring must not show the changes it failed to make.
+		ring.rollbackPendingTX()
 		return err
 	}
 
